@@ -163,6 +163,10 @@ def c08_space(tier):
                 sp2 = re.sub(r"D=\d+", "D=%d" % (d - 1), sp)
                 asan.append({"id": "asan-" + j["id"], "argv": ["seqx", sp2, "@JOURNAL@"], "asan": True})
         asan.append({"id": "asan-deque-5", "argv": ["dequex", "5", "60"], "asan": True})
+        # schedules of the quick-size program families under the sanitizer too
+        for fam, cap in (("c02", "4000"), ("c02x", "4000"), ("gen", "1000")):
+            for i in range(8):
+                asan.append({"id": "asan-sched-%s-%02d" % (fam, i), "argv": ["schedx", fam, "quick", "2", str(i), "8", cap], "asan": True})
         out += asan
     for cap in (0, 1, 2, 3, 5):
         out.append({"id": "sketch-tiling-%d" % cap, "argv": ["sketchx", str(cap), "tiling", "3", "40" if not thorough else "90"]})
